@@ -275,6 +275,9 @@ def run(ctx: Ctx, driver: Driver):
             ctx.nontrivial.add(("enc", name, mask(inst)))
             if out.startswith("exc"):
                 ctx.violation(f"enc/{name.split('.')[-1]}/{out.split()[1]}", f"{name}.encode() raised {out.split()[1]}", case)
+            elif out == "err struct":
+                # every generated integer fits its declared width, so the packer has no reason to refuse it
+                ctx.violation(f"enc/{name.split('.')[-1]}/refused-in-range", f"{name}.encode() refused a value whose integers all fit their declared widths (struct.error): no encoding, no round trip", case)
             elif out.startswith("ok"):
                 enc = bytes.fromhex(out[3:]) if out[3:] != "-" else b""
                 if enc != ref_struct(inst):
